@@ -124,3 +124,251 @@ Definition judge_c04 (c : c04_case) : nat :=
 Definition c04_nontrivial (c : c04_case) : bool :=
   negb (Nat.eqb (length (values_spec (d_consts (k_def c)))) (length (d_consts (k_def c))))
   || Nat.ltb 15 (length (d_consts (k_def c))).
+
+(* ------------------------------------------------------------------ documents (C05, C12) *)
+Inductive codec := CJson | CText | CYaml.
+Inductive dfrom :=
+| FromNone                              (* rejection stream *)
+| FromValue (v : Z)                     (* the real encoding of enum value v *)
+| FromTrait (col : string) (v : Z).     (* the library rendering of trait col of enum value v *)
+
+(* one decoded document: what the libraries report about it (the views of GEnumModel) and
+   what the generated decoder returned.  do_called = the library handed the document to the
+   generated Unmarshal* method (false e.g. for YAML null: out of the decoders' reach) *)
+Record doc_obs := {
+  do_codec : codec; do_from : dfrom; do_called : bool;
+  do_str : option string;                 (* JSON string view | text | yaml node value *)
+  do_u64 : option Z; do_i64 : option Z;   (* json.Unmarshal into uint64/int64 | strconv.ParseUint/ParseInt *)
+  do_native : list (string * option payload);
+  do_res : res }.
+
+Definition model_decode (t : tables) (x : doc_obs) : res :=
+  match do_codec x with
+  | CJson => res_of (decode_json t {| jv_string := do_str x; jv_u64 := do_u64 x; jv_i64 := do_i64 x;
+                                      jv_native := do_native x |})
+  | CText => match do_str x with
+             | Some s => res_of (decode_text t {| tv_text := s; tv_native := do_native x |})
+             | None => RErr
+             end
+  | CYaml => match do_str x with
+             | Some s => res_of (decode_yaml t {| yv_value := s; yv_u64 := do_u64 x; yv_i64 := do_i64 x;
+                                                  yv_native := do_native x |})
+             | None => RErr
+             end
+  end.
+
+(* does the document denote the constant cl?  (faithful readings only: the string content,
+   the number itself, the value its own unmarshaler produced) *)
+Definition doc_denotes (x : doc_obs) (cl : cell) : bool :=
+  match dval (cl_val cl) with
+  | PStr s => match do_str x with Some s' => String.eqb s s' | None => false end
+  | PInt z => match do_u64 x with Some u => Z.eqb u z | None => false end
+              || match do_i64 x with Some i => Z.eqb i z | None => false end
+  | PBool _ => false
+  end
+  || existsb (fun p => String.eqb (fst p) (dty (cl_val cl))
+                       && match snd p with Some q => payload_eqb q (dval (cl_val cl)) | None => false end)
+             (do_native x).
+
+(* values whose parsable trait cells the document denotes *)
+Definition doc_trait_owners (d : defn) (o : opts) (x : doc_obs) : list Z :=
+  map c_val (filter (fun c => existsb (doc_denotes x) (parsable_cells d o c)) (d_consts d)).
+
+Definition doc_name_value (d : defn) (o : opts) (x : doc_obs) : option Z :=
+  match do_str x with
+  | Some s => match name_value (d_consts d) s with
+              | Some v => Some v
+              | None => if o_ci o then name_value_ci (d_consts d) s else None
+              end
+  | None => None
+  end.
+
+(* ------------------------------------------------------------------ C05 *)
+Record c05_case := {
+  k5_def : defn; k5_opts : opts; k5_outcome : nat;
+  k5_values : list Z;
+  k5_enc : list (Z * (option string * (option string * option string)));  (* v, json bytes, text, MarshalYAML() *)
+  k5_docs : list doc_obs }.
+
+Definition opt_str_is (o : option string) (s : string) : bool :=
+  match o with Some x => String.eqb x s | None => false end.
+
+Definition c05_doc_spec_ok (d : defn) (o : opts) (x : doc_obs) : bool :=
+  if negb (do_called x) then true
+  else match do_from x with
+       | FromValue v => res_eqb (do_res x) (ROk v)
+       | _ =>
+           match doc_name_value d o x with
+           | Some v => res_eqb (do_res x) (ROk v) || negb (Nat.eqb (length (doc_trait_owners d o x)) 0)
+           | None =>
+               if Nat.eqb (length (doc_trait_owners d o x)) 0 then res_eqb (do_res x) RErr
+               else negb (res_eqb (do_res x) RPanic)
+           end
+       end.
+
+Definition c05_spec_ok (c : c05_case) : bool :=
+  let d := k5_def c in let o := k5_opts c in
+  let vs := values_spec (d_consts d) in
+  Nat.eqb (k5_outcome c) 0
+  && list_eqb Z.eqb (k5_values c) vs
+  && list_eqb Z.eqb (map fst (k5_enc c)) (if o_json o || o_text o || o_yaml o then vs else [])
+  && forallb (fun p => let '(v, (j, (tx, y))) := p in
+                       let n := string_spec d v in
+                       (negb (o_json o) || opt_str_is j (quote n))
+                       && (negb (o_text o) || opt_str_is tx n)
+                       && (negb (o_yaml o) || opt_str_is y n)) (k5_enc c)
+  && forallb (c05_doc_spec_ok d o) (k5_docs c).
+
+Definition c05_model_eq (c : c05_case) : bool :=
+  match gen (k5_def c) (k5_opts c) with
+  | Built t =>
+      let o := k5_opts c in
+      Nat.eqb (k5_outcome c) 0
+      && list_eqb Z.eqb (k5_values c) (sem_values t)
+      && forallb (fun p => let '(v, (j, (tx, y))) := p in
+                           (negb (o_json o) || opt_str_is j (encode_json t v))
+                           && (negb (o_text o) || opt_str_is tx (encode_text t v))
+                           && (negb (o_yaml o) || opt_str_is y (encode_yaml t v))) (k5_enc c)
+      && forallb (fun x => negb (do_called x) || res_eqb (do_res x) (model_decode t x)) (k5_docs c)
+  | o => Nat.eqb (k5_outcome c) (outcome_code o)
+  end.
+
+(* -yaml=false drops IsEnum on the pinned template (property C13): such packages do not compile
+   and there is nothing to observe; they are skipped here, not judged *)
+Definition c05_skipped (c : c05_case) : bool :=
+  negb (o_yaml (k5_opts c)) && Nat.eqb (k5_outcome c) 2.
+
+Definition judge_c05 (c : c05_case) : nat :=
+  if in_domain (k5_def c) (k5_opts c) && negb (c05_skipped c)
+  then verdict (c05_spec_ok c) (c05_model_eq c) else 0.
+
+(* non-trivial: some parsable trait family is in play or a document was rejected *)
+Definition c05_nontrivial (c : c05_case) : bool :=
+  existsb (fun k => negb (Nat.eqb (length (parsable_cells (k5_def c) (k5_opts c) k)) 0)) (d_consts (k5_def c))
+  || existsb (fun x => res_eqb (do_res x) RErr) (k5_docs c).
+
+(* ------------------------------------------------------------------ C12 *)
+Record c12_case := {
+  k12_def : defn; k12_opts : opts; k12_outcome : nat;
+  k12_values : list Z;
+  k12_acc : list (string * list (Z * payload));       (* accessor name, (e, result) *)
+  k12_tparse : list (string * (Z * (dyn * res)));     (* column, e, accessor(e) as any, Parse<T>(it) *)
+  k12_docs : list doc_obs }.
+
+(* documented acceptance rules of the generator, over the definition:
+   trait names on the line of the lowest value; a line with trait cells has (or shares its value
+   with a line that has) one cell per trait; parsable trait values unique within the enum *)
+Definition ncols (d : defn) : nat := length (column_names d).
+Definition traits_in_domain (d : defn) : bool :=
+  match lowest_const (d_consts d) with
+  | None => false
+  | Some l =>
+      forallb (fun cl => negb (String.eqb (cl_var cl) "_") && negb (String.eqb (trim_underscore (cl_var cl)) "")
+                         && negb (String.eqb (trim_underscore (cl_var cl)) "_")) (c_cells l)
+      && forallb (fun c => Nat.leb (length (c_cells c)) (ncols d)) (d_consts d)
+      && (negb (Nat.eqb (ncols d) 0) || forallb (fun c => Nat.eqb (length (c_cells c)) 0) (d_consts d))
+      && str_nodupb (column_names d)
+  end.
+Definition counts_ok (d : defn) : bool :=
+  forallb (fun c => Nat.eqb (length (c_cells c)) 0
+                    || existsb (fun c' => Z.eqb (c_val c') (c_val c) && Nat.eqb (length (c_cells c')) (ncols d))
+                               (d_consts d)) (d_consts d).
+Definition is_primary_const (d : defn) (c : const) : bool :=
+  match primary (d_consts d) (c_val c) with Some n => String.eqb n (c_name c) | None => false end.
+Definition value_string (d : defn) (c : const) (cl : cell) : string :=
+  match lowest_const (d_consts d) with
+  | Some l => if String.eqb (c_name l) (c_name c) then exact_string (dval (cl_val cl)) else cl_expr cl
+  | None => cl_expr cl
+  end.
+Definition unique_ok (d : defn) (o : opts) : bool :=
+  validate_pairs (flat_map (fun c => if is_primary_const d c
+                                     then map (fun cl => (value_string d c cl, c_name c)) (parsable_cells d o c)
+                                     else []) (d_consts d)).
+Definition spec_accepts (d : defn) (o : opts) : bool :=
+  if o_notraits o then true else counts_ok d && unique_ok d o.
+
+(* the cell of column col on the primary definition line of value e *)
+Definition primary_cell (d : defn) (col : string) (e : Z) : option cell :=
+  match primary_const (d_consts d) e with
+  | Some c => match find (fun p => String.eqb (fst p) col) (named_cells d c) with
+              | Some p => Some (snd p)
+              | None => None
+              end
+  | None => None
+  end.
+Definition column_zero (d : defn) (col : string) : payload :=
+  match lowest_const (d_consts d) with
+  | Some l => match find (fun p => String.eqb (fst p) col) (named_cells d l) with
+              | Some p => match lookup (dty (cl_val (snd p))) (d_types d) with
+                          | Some ti => zero_payload (ti_bkind ti)
+                          | None => PInt 0
+                          end
+              | None => PInt 0
+              end
+  | None => PInt 0
+  end.
+Definition accessor_spec (d : defn) (col : string) (e : Z) : payload :=
+  match primary_cell d col e with
+  | Some cl => dval (cl_val cl)
+  | None => column_zero d col
+  end.
+
+Definition c12_doc_spec_ok (d : defn) (o : opts) (x : doc_obs) : bool :=
+  if negb (do_called x) then true
+  else match do_from x with
+       | FromValue v => res_eqb (do_res x) (ROk v)
+       | FromTrait col e =>
+           match primary_cell d col e with
+           | Some _ =>
+               (* ambiguous documents (e.g. YAML 12 for a string trait "12" and an integer trait 12 of
+                  different values) carry no obligation *)
+               if forallb (Z.eqb e) (doc_trait_owners d o x) && negb (match doc_name_value d o x with Some _ => true | None => false end)
+               then res_eqb (do_res x) (ROk e) else negb (res_eqb (do_res x) RPanic)
+           | None => negb (res_eqb (do_res x) RPanic)
+           end
+       | FromNone => true
+       end.
+
+Definition c12_spec_ok (c : c12_case) : bool :=
+  let d := k12_def c in let o := k12_opts c in
+  if negb (spec_accepts d o) then Nat.eqb (k12_outcome c) 1      (* rejected with a diagnostic: nothing generated *)
+  else
+    Nat.eqb (k12_outcome c) 0
+    && list_eqb Z.eqb (k12_values c) (values_spec (d_consts d))
+    && (o_notraits o
+        || (list_eqb String.eqb (isort str_ltb (map fst (k12_acc c))) (isort str_ltb (column_names d))
+            && forallb (fun a => forallb (fun p => payload_eqb (snd p) (accessor_spec d (fst a) (fst p))) (snd a))
+                       (k12_acc c)
+            && forallb (fun q => let '(col, (e, (x, r))) := q in
+                                 match primary_cell d col e with
+                                 | Some _ => res_eqb r (ROk e)
+                                 | None => negb (res_eqb r RPanic)
+                                 end) (k12_tparse c)))
+    && forallb (c12_doc_spec_ok d o) (k12_docs c).
+
+Definition c12_model_eq (c : c12_case) : bool :=
+  match gen (k12_def c) (k12_opts c) with
+  | Built t =>
+      Nat.eqb (k12_outcome c) 0
+      && list_eqb Z.eqb (k12_values c) (sem_values t)
+      && list_eqb String.eqb (map fst (k12_acc c)) (map col_name (t_cols t))
+      && forallb (fun a => match find (fun col => String.eqb (col_name col) (fst a)) (t_cols t) with
+                           | Some col => forallb (fun p => payload_eqb (snd p) (sem_accessor col (fst p))) (snd a)
+                           | None => false
+                           end) (k12_acc c)
+      && forallb (fun q => let '(col, (e, (x, r))) := q in res_eqb r (res_of (sem_parse t x))) (k12_tparse c)
+      && forallb (fun x => negb (do_called x) || res_eqb (do_res x) (model_decode t x)) (k12_docs c)
+  | o => Nat.eqb (k12_outcome c) (outcome_code o)
+  end.
+
+Definition c12_skipped (c : c12_case) : bool :=
+  negb (o_yaml (k12_opts c)) && Nat.eqb (k12_outcome c) 2.
+
+Definition judge_c12 (c : c12_case) : nat :=
+  if in_domain (k12_def c) (k12_opts c) && traits_in_domain (k12_def c) && negb (c12_skipped c)
+  then verdict (c12_spec_ok c) (c12_model_eq c) else 0.
+
+Definition c12_nontrivial (c : c12_case) : bool :=
+  negb (Nat.eqb (ncols (k12_def c)) 0)
+  && (existsb (fun k => negb (Nat.eqb (length (parsable_cells (k12_def c) (k12_opts c) k)) 0)) (d_consts (k12_def c))
+      || negb (Nat.eqb (length (values_spec (d_consts (k12_def c)))) (length (d_consts (k12_def c))))).
